@@ -64,7 +64,7 @@ func (c *c18Ctx) c18Truncations(lg *c18Log, st *c18Stream, rnd *rand.Rand) {
 				recs = append(recs, rc)
 			}
 		}
-		nb := r.N(4, 60)
+		nb := r.N(4, 30)
 		for i := 0; i < nb && len(recs) > 0; i++ {
 			rc := recs[rnd.IntN(len(recs))]
 			if i == 0 {
@@ -76,7 +76,7 @@ func (c *c18Ctx) c18Truncations(lg *c18Log, st *c18Stream, rnd *rand.Rand) {
 			add(rc.Local + rc.Size - 1)
 			add(rc.Local + rc.Size - 2)
 		}
-		for i := 0; i < r.N(8, 300); i++ {
+		for i := 0; i < r.N(8, 150); i++ {
 			add(rnd.Int64N(last.Size + 1))
 		}
 		add(last.Size)
